@@ -47,6 +47,11 @@ def instances(tier):
     # a grid on which the bands (f0/4, f0) and (f0, 4 f0) can be empty
     out.append({"name": "clarity_e_none", "func": "run_clarity", "kwargs": {"grid": "e", "rng": "none"}})
     out.append({"name": "reliability_e_none", "func": "run_reliability", "kwargs": {"grid": "e", "rng": "none"}})
+    # a call under the default (whole-curve) search range precedes the checked call in the same process: the verdicts of the
+    # second call follow ITS search range
+    for rng in ("lo", "hi"):
+        out.append({"name": f"reliability_a_{rng}_after_default_range_call", "func": "run_reliability", "kwargs": {"grid": "a", "rng": rng, "prior": True}})
+        out.append({"name": f"clarity_a_{rng}_after_default_range_call", "func": "run_clarity", "kwargs": {"grid": "a", "rng": rng, "prior": True}})
     out.append({"name": "monotone_reliability_ii", "func": "run_monotone", "kwargs": {"which": "ii"}})
     out.append({"name": "monotone_clarity_v", "func": "run_monotone", "kwargs": {"which": "v"}})
     return out
@@ -120,13 +125,16 @@ def consistent(rep, ctx, label, verdict, holds_if_one, fails_if_zero, W, key, ex
     rep.prove(ctx, f"{label}: verdict {verdict} is the guideline's", neg, witness=W, key=key, real=True, timeout_ms=20000)
 
 
-def run_reliability(rep, tier, grid, rng):
+def run_reliability(rep, tier, grid, rng, prior=False):
     SE = L()["sesame"]
 
     def run(ctx):
         c, frq, mean, std, s, sr = mk_inputs(ctx, grid, rng)
         lw = Sym.var("lw", ctx, pos=True)
         nw = Sym.var("nw", ctx, lo=1)
+        if prior:
+            outcome(lambda: SE.reliability(lw, nw, frq, mean, std, verbose=0))
+            outcome(lambda: SE.clarity(frq, mean, std, Sym.var("fn_std0", ctx, lo=0), verbose=0))
         outs = [outcome(lambda v=v: SE.reliability(lw, nw, frq, mean, std, search_range_in_hz=sr, verbose=v)) for v in (0, 1, 2)]
         j0 = reference_peak(frq, mean, sr)
         return c, frq, mean, std, s, sr, lw, nw, outs, j0
@@ -134,7 +142,7 @@ def run_reliability(rep, tier, grid, rng):
     for ctx, (c, frq, mean, std, s, sr, lw, nw, outs, j0) in rep.explore(run, max_paths=700 if tier == "quick" else 6000, timeout_ms=3000):
         if j0 is None:
             continue      # no peak in the range: outside the quantifier
-        W = wit(c, frq, mean, std, sr, {"kind": "reliability", "lw": lw, "nw": nw})
+        W = wit(c, frq, mean, std, sr, {"kind": "reliability", "lw": lw, "nw": nw, "prior": prior})
         rep.obligations += 1
         if outs[0] == outs[1] == outs[2] and outs[0][0] == "ret":
             rep.discharged += 1
@@ -157,12 +165,15 @@ def run_reliability(rep, tier, grid, rng):
         rep.sample({"grid": grid, "range": rng, "peak_index": j0, "verdicts": v})
 
 
-def run_clarity(rep, tier, grid, rng):
+def run_clarity(rep, tier, grid, rng, prior=False):
     SE = L()["sesame"]
 
     def run(ctx):
         c, frq, mean, std, s, sr = mk_inputs(ctx, grid, rng)
         fstd = Sym.var("fn_std", ctx, lo=0)
+        if prior:
+            outcome(lambda: SE.clarity(frq, mean, std, fstd, verbose=0))
+            outcome(lambda: SE.reliability(Sym.var("lw0", ctx, pos=True), Sym.var("nw0", ctx, lo=1), frq, mean, std, verbose=0))
         outs = [outcome(lambda v=v: SE.clarity(frq, mean, std, fstd, search_range_in_hz=sr, verbose=v)) for v in (0, 1, 2)]
         j0 = reference_peak(frq, mean, sr)
         up = np.array([(mean[j].log() + s[j]).exp() for j in range(len(frq))], dtype=object)
@@ -174,7 +185,7 @@ def run_clarity(rep, tier, grid, rng):
     for ctx, (c, frq, mean, std, s, sr, fstd, outs, j0, jp, jm) in rep.explore(run, max_paths=900 if tier == "quick" else 8000, timeout_ms=3000):
         if j0 is None:
             continue
-        W = wit(c, frq, mean, std, sr, {"kind": "clarity", "fn_std": fstd})
+        W = wit(c, frq, mean, std, sr, {"kind": "clarity", "fn_std": fstd, "prior": prior})
         rep.obligations += 1
         if outs[0] == outs[1] == outs[2] and outs[0][0] == "ret":
             rep.discharged += 1
@@ -280,6 +291,13 @@ def replay(spec):
     sr = [None if v is None else float(v) for v in spec["range"]]
     res = {}
     kind = spec["kind"]
+    if spec.get("prior"):
+        for call in (lambda: SE.reliability(30.0, 10.0, frq, mean, std, verbose=0), lambda: SE.clarity(frq, mean, std, 0.1, verbose=0)):
+            try:
+                with contextlib.redirect_stdout(io.StringIO()):
+                    call()          # earlier use of the module under the default search range
+            except Exception:   # noqa
+                pass
     for v in (0, 1, 2):
         try:
             with contextlib.redirect_stdout(io.StringIO()):
